@@ -50,6 +50,49 @@ def build():
             raise GenError("%s::rewind changed" % sec)
     defs.append(("rewind_truncates_to_start", "bool", "true"))
 
+    # ---- section conversions: every shortcut is the composition of single steps
+    #      (one rewind per section dropped), every XBuilder::new takes the current length as start
+    conv = {
+        "pub struct MessageBuilder<Target>": {
+            "question": r"QuestionBuilder::new\(self\)", "answer": r"self\.question\(\)\.answer\(\)",
+            "authority": r"self\.question\(\)\.answer\(\)\.authority\(\)",
+            "additional": r"self\.question\(\)\.answer\(\)\.authority\(\)\.additional\(\)"},
+        "pub struct QuestionBuilder<Target>": {
+            "builder": r"self\.rewind\(\);\s*self\.builder", "answer": r"AnswerBuilder::new\(self\.builder\)",
+            "authority": r"self\.answer\(\)\.authority\(\)", "additional": r"self\.answer\(\)\.authority\(\)\.additional\(\)"},
+        "pub struct AnswerBuilder<Target>": {
+            "builder": r"self\.question\(\)\.builder\(\)", "question": r"self\.rewind\(\);\s*QuestionBuilder::new\(self\.builder\)",
+            "authority": r"AuthorityBuilder::new\(self\)", "additional": r"self\.authority\(\)\.additional\(\)"},
+        "pub struct AuthorityBuilder<Target>": {
+            "builder": r"self\.question\(\)\.builder\(\)", "question": r"self\.answer\(\)\.question\(\)",
+            "answer": r"self\.rewind\(\);\s*self\.answer", "additional": r"AdditionalBuilder::new\(self\)"},
+        "pub struct AdditionalBuilder<Target>": {
+            "builder": r"self\.question\(\)\.builder\(\)", "question": r"self\.answer\(\)\.question\(\)",
+            "answer": r"self\.authority\(\)\.answer\(\)", "authority": r"self\.rewind\(\);\s*self\.authority"},
+    }
+    nconv = 0
+    for after, fns in conv.items():
+        for name, pat in fns.items():
+            body = fn_body(src, name, after=after)
+            if not re.fullmatch(r"\s*" + pat + r"\s*", body, re.S):
+                raise GenError("%s ... fn %s: body %r is not the expected composition" % (after, name, " ".join(body.split())[:80]))
+            nconv += 1
+    for after, pat in (("pub struct AnswerBuilder<Target>", r"start:\s*builder\.target\.as_ref\(\)\.len\(\)"),
+                       ("pub struct AuthorityBuilder<Target>", r"start:\s*answer\.as_target\(\)\.as_ref\(\)\.len\(\)"),
+                       ("pub struct AdditionalBuilder<Target>", r"start:\s*authority\.as_target\(\)\.as_ref\(\)\.len\(\)")):
+        one(pat, fn_body(src, "new", after=after), after + " new: start")
+    defs.append(("conversions_anchored", "N", N(nconv)))
+    # start_answer / start_error / request_axfr are header setters + question pushes + .answer()
+    sa = fn_body(src, "start_answer")
+    one(r"header\.set_id\(msg\.header\(\)\.id\(\)\);\s*header\.set_qr\(true\);\s*header\.set_opcode\(msg\.header\(\)\.opcode\(\)\);\s*header\.set_rd\(msg\.header\(\)\.rd\(\)\);\s*header\.set_rcode\(rcode\);", sa, "start_answer header")
+    one(r"let mut builder = self\.question\(\);\s*for item in msg\.question\(\)\.flatten\(\)\s*\{\s*builder\.push\(item\)\?;\s*\}\s*Ok\(builder\.answer\(\)\)", sa, "start_answer body")
+    se = fn_body(src, "start_error")
+    one(r"header\.set_id\(msg\.header\(\)\.id\(\)\);\s*header\.set_qr\(true\);\s*header\.set_opcode\(msg\.header\(\)\.opcode\(\)\);\s*header\.set_rd\(msg\.header\(\)\.rd\(\)\);\s*header\.set_rcode\(rcode\);", se, "start_error header")
+    one(r"if builder\.push\(item\)\.is_err\(\)\s*\{\s*builder\.header_mut\(\)\.set_rcode\(Rcode::SERVFAIL\);\s*break;\s*\}\s*\}\s*builder\.answer\(\)", se, "start_error body")
+    ra = fn_body(src, "request_axfr")
+    one(r"self\.header_mut\(\)\.set_random_id\(\);\s*let mut builder = self\.question\(\);\s*builder\.push\(\(apex, Rtype::AXFR\)\)\?;\s*Ok\(builder\.answer\(\)\)", ra, "request_axfr body")
+    defs.append(("start_helpers_anchored", "bool", "true"))
+
     # ---- counters: checked_add(1) on a u16
     for c in ("qdcount", "ancount", "nscount", "arcount"):
         b = fn_body(hs, "inc_" + c)
@@ -137,6 +180,30 @@ def build():
     m = one(r"impl Default for OptHeader\s*\{\s*fn default\(\)\s*->\s*Self\s*\{\s*OptHeader\s*\{\s*inner:\s*\[([^\]]*)\]", opt, "OptHeader::default")
     vals = [num(x.strip()) for x in m.group(1).split(",") if x.strip()]
     defs.append(("opt_header_default", "list N", "[" + "; ".join(N(v) for v in vals) + "]"))
+
+    # ---- AdditionalBuilder::opt: one push of OptBuilder::new(..)?.build(op) counted in ARCOUNT;
+    #      does it put the header RCODE back when the push fails?
+    ob_impl = fn_body(src, "opt", after="impl<Target: Composer> AdditionalBuilder<Target>")
+    one(r"\.push\(\s*\|target\|\s*OptBuilder::new\(target\)\?\.build\(op\),\s*\|counts\|\s*counts\.inc_arcount\(\),?\s*\)", ob_impl, "AdditionalBuilder::opt push")
+    restores = re.search(r"let\s+rcode\s*=\s*self\.header\(\)\.rcode\(\);.*if\s+res\.is_err\(\)\s*\{\s*self\.header_mut\(\)\.set_rcode\(rcode\);\s*\}\s*res\s*$", ob_impl, re.S) is not None
+    defs.append(("opt_restores_rcode_on_err", "bool", B(restores)))
+    osr = fn_body(src, "set_rcode", after="impl<'a, Target: Composer + ?Sized> OptBuilder<'a, Target>")
+    one(r"Header::for_message_slice_mut\(self\.target\.as_mut\(\)\)\s*\.set_rcode\(rcode\.rcode\(\)\);\s*self\.opt_header_mut\(\)\.set_rcode\(rcode\)", osr, "OptBuilder::set_rcode")
+    oh = strip_comments(read("src/base/opt/mod.rs"))
+    one(r"pub fn set_udp_payload_size\(&mut self, value: u16\)\s*\{\s*self\.inner\[3\.\.5\]\.copy_from_slice\(&value\.to_be_bytes\(\)\)", oh, "OptHeader::set_udp_payload_size")
+    one(r"pub fn set_rcode\(&mut self, rcode: OptRcode\)\s*\{\s*self\.inner\[5\]\s*=\s*rcode\.ext\(\)", oh, "OptHeader::set_rcode")
+    one(r"pub fn set_version\(&mut self, version: u8\)\s*\{\s*self\.inner\[6\]\s*=\s*version", oh, "OptHeader::set_version")
+    one(r"pub fn set_dnssec_ok\(&mut self, value: bool\)\s*\{\s*if value\s*\{\s*self\.inner\[7\]\s*\|=\s*0x80\s*\}\s*else\s*\{\s*self\.inner\[7\]\s*&=\s*0x7F", oh, "OptHeader::set_dnssec_ok")
+    one(r"pub fn set_rcode\(&mut self, rcode: Rcode\)\s*\{\s*self\.inner\[3\]\s*=\s*self\.inner\[3\]\s*&\s*0xF0\s*\|\s*\(rcode\.to_int\(\)\s*&\s*0x0F\)", hs, "Header::set_rcode")
+    rc = strip_comments(read("src/base/iana/rcode.rs"))
+    one(r"pub fn to_parts\(self\)\s*->\s*\(Rcode, u8\)\s*\{\s*\(Rcode::masked_from_int\(self\.0 as u8\),\s*\(self\.0\s*>>\s*4\)\s*as\s*u8\)", rc, "OptRcode::to_parts")
+    one(r"pub fn ext\(self\)\s*->\s*u8\s*\{\s*self\.to_parts\(\)\.1", rc, "OptRcode::ext")
+    defs.append(("opt_header_setters_anchored", "bool", "true"))
+    # Record::compose writes the TTL as it is (all 32 bits)
+    recs = strip_comments(read("src/base/record.rs"))
+    rcm = fn_body(recs, "compose", after="impl<N: ToName, D: RecordData + ComposeRecordData> Record<N, D>")
+    one(r"target\.append_compressed_name\(&self\.owner\)\?;\s*self\.data\.rtype\(\)\.compose\(target\)\?;\s*self\.class\.compose\(target\)\?;\s*self\.ttl\.compose\(target\)\?;\s*self\.data\.compose_len_rdata\(target\)\s*$", rcm, "Record::compose field order")
+    defs.append(("record_compose_fields_in_order", "bool", "true"))
 
     # ---- Label equality / hashing fold ASCII case (Static and Hash compressors), tree does not
     lb = strip_comments(read("src/base/name/label.rs"))
